@@ -33,7 +33,8 @@ func New(s string, fromBit, toBit int32) []byte {
 	}
 
 	fromByte := fromBit >> 3
-	toByte := (toBit + 7) >> 3
+	// toBit+7 overflows int32 for the last 7 bit positions an int32 can name.
+	toByte := int32((int64(toBit) + 7) >> 3)
 
 	l := toByte - fromByte
 
